@@ -200,8 +200,16 @@ func GenScenario(r *rand.Rand, family string, idx int, o Opt) Scenario {
 		}
 		sc.MemWindow = 4
 		sc.ChunkBytes = 300
+		cs := conns()
+		// one long single-key-set stream so that the queue / the quota really overflows
+		long := ConnSpec{ID: nextID}
+		nextID++
+		for s := 1; s <= 120; s++ {
+			long.Recs = append(long.Recs, Rec{Conn: long.ID, Seq: s, App: "appA", Sev: 6, Host: "h1", Kind: "plain", Pad: 80})
+		}
+		cs = append(cs, long)
 		sc.Gens = []GenSpec{
-			{Conns: conns(), UpScript: all(steps("neverack", 60, upstream.Step{})), StopDelayMs: 30},
+			{Conns: cs, UpScript: all(steps("neverack", 60, upstream.Step{})), StopDelayMs: 30},
 			{UpScript: healthy(), WaitAcked: false, StopDelayMs: 150}}
 	case "session-renewal":
 		sc.MaxDurMs = 20 + r.Intn(60)
